@@ -104,6 +104,7 @@ class Engine:
         self.unknown = 0
         self.violations = []
         self.truncated = 0
+        self.lazy_recip = False
         self.max_values_per_site = 16
         self.stop_after_failures = 40
         self.stopped_early = False
@@ -695,7 +696,10 @@ class SN(Sym):
         if not any(c.eq(x) for x in E.pc):
             # division by zero is a modelling boundary: paths with b == 0 are cut here and
             # must be excluded by the harness (obligation `nonzero`) where it matters
-            E.add(c)
+            if E.lazy_recip:
+                E.pc.append(c)  # definitional: obligations see it, fork feasibility stays linear
+            else:
+                E.add(c)
         return SN(a * r)
 
     def __rtruediv__(self, o):
